@@ -143,6 +143,20 @@ func setScenarios(c *Ctx) ([]drive.SetScenario, []string) {
 		sc := drive.SetScenario{Members: []render.SetMember{{P: th, Exec: true}, {P: wp, Exec: false}}, Waits: [][]int{{3000}}}
 		sc.Flows = []render.MsgFlow{{Src: "P0_" + h, Dst: "P1_" + wp.Nodes[0].Id}}
 		add("msgflow-start", sc)
+		// the same, polled: many short waits while the thrown message is on its way and while the
+		// process it instantiates is still running -- none of them may report completion
+		{
+			th, h := throwProc("thrower")
+			wp := taskProc("waiting", 2)
+			poll := make([]int, 0, 42)
+			for i := 0; i < 40; i++ {
+				poll = append(poll, 1)
+			}
+			poll = append(poll, 3000)
+			scp := drive.SetScenario{Members: []render.SetMember{{P: th, Exec: true}, {P: wp, Exec: false}}, HoldMs: 15, Waits: [][]int{poll, {3000}}}
+			scp.Flows = []render.MsgFlow{{Src: "P0_" + h, Dst: "P1_" + wp.Nodes[0].Id}}
+			add("msgflow-start-polled", scp)
+		}
 		// message flow waking a catch event of another executable process
 		th2, h2 := throwProc("thrower")
 		cp, cid := catchProc("catcher")
